@@ -28,6 +28,7 @@ def jext():
 
 def main():
     chk = Check(PID)
+    chk.default_replay = _replay_symplectic
     import hiten.algorithms.integrators.symplectic as sp
     import hiten.algorithms.polynomial.base as pb
     import hiten.algorithms.polynomial.operations as po
